@@ -468,13 +468,16 @@ CHECKS["C09"] = dict(
           "the baseline within 5 s. part limit: connection limit L in {0,1,2,3,5,8} with generated bursts of 1..6 simultaneous opens, closes "
           "and one StopListen: served-concurrently <= L at all times, connections under the limit are served (retried up to 5 s because a "
           "client close is noticed asynchronously), after StopListen new connects are not served while every established connection still "
-          "is. Non-trivial: the stop is placed before the bind completed, or with >= 1 connection open, or with a non-responsive backend; "
+          "is. part arrivals: 5..25 trials per case of Stop called 0..3 ms after 1..8 dialer goroutines started connecting non-stop "
+          "(connections left idle, 0..30 established before): Stop returns within 10 s and every connection the clients ever got "
+          "established sees EOF/reset within 5 s. Non-trivial: the stop is placed before the bind completed, or with >= 1 connection open, or with a non-responsive backend; "
           "limit: more simultaneous attempts than L, or a drain. Distinct by canonical JSON."),
     assumptions=["'not served' after Stop means connect refused or the connection closed without data (the port may be rebound by others)",
                  "process-wide singletons (the shared TCP checker loop) are part of the goroutine baseline"],
     parts=[
         dict(name="stop", test="TestStop", kind="rapid", checks={"quick": 40, "thorough": 2500}, shards=16, timeout={"quick": 900, "thorough": 3400}, shrinktime="60s", gomaxprocs=4, crash_is_violation=True),
         dict(name="limit", test="TestLimitAndDrain", kind="rapid", checks={"quick": 40, "thorough": 2500}, shards=16, timeout={"quick": 900, "thorough": 3400}, shrinktime="60s", gomaxprocs=4, crash_is_violation=True),
+        dict(name="arrivals", test="TestStopUnderArrivals", kind="rapid", checks={"quick": 6, "thorough": 300}, shards=16, timeout={"quick": 900, "thorough": 3400}, shrinktime="20s", gomaxprocs=4, crash_is_violation=True),
     ],
 )
 
